@@ -184,9 +184,17 @@ class AppLog:
             async def _disc(sid, reason):
                 self.busy += 1
                 try:
-                    r = self._disconnect(sid, reason)
+                    # (the farewell goes out whether or not a scripted fault follows: which
+                    # session's handler a queued fault hits depends on the order sessions end in)
+                    err = None
+                    try:
+                        r = self._disconnect(sid, reason)
+                    except (Exception, asyncio.CancelledError) as e:      # noqa
+                        err = e
                     if self.farewell:
                         await react(sid, self._reactions('disconnect', sid, reason))
+                    if err is not None:
+                        raise err
                     return r
                 finally:
                     try:
@@ -244,9 +252,15 @@ class AppLog:
                     self.busy -= 1
 
             def _disc_sync(sid, reason):
-                r = self._disconnect(sid, reason)
+                err = None
+                try:
+                    r = self._disconnect(sid, reason)
+                except (Exception, asyncio.CancelledError) as e:      # noqa  (see above)
+                    err = e
                 if self.farewell:
                     react(sid, self._reactions('disconnect', sid, reason))
+                if err is not None:
+                    raise err
                 return r
 
             def message(sid, data):
